@@ -315,28 +315,75 @@ USERS = ['alice', 'bob', 'carol']
 GROUP_MENU = [None, None, None, None, None, None, [], ['G1'], ['G1'], ['G2'], ['G2'], ['G1', 'G2'], ['G2', 'G1'], ['GX'], ['GX', 'G2'], ['']]
 
 
-def random_policies(rng):
-    P = copy.deepcopy(core_policy.policies)
-
+def random_policy_document(rng):
+    """A policy FILE (JSON document: names of object types, operations, permissions) with preset and/or groups
+    sections, object types with DIFFERENT operation sets, missing entries, one policy in the legacy layout."""
     def sec(weights, p_type_missing=0.12, p_op_missing=0.12):
         s = {}
-        for t in TYPES:
+        types = list(TYPES)
+        rng.shuffle(types)                       # document order is not enum order
+        for t in types:
             if rng.random() < p_type_missing:
                 continue
+            ops = list(POLICY_OPS)
+            rng.shuffle(ops)
+            p_miss = rng.choice([p_op_missing, p_op_missing, 0.5])   # some object types list few operations
             om = {}
-            for op in POLICY_OPS:
-                if rng.random() < p_op_missing:
+            for op in ops:
+                if rng.random() < p_miss:
                     continue
-                om[op] = rng.choices([PL.ALLOW_ALL, PL.ALLOW_OWNER, PL.DISALLOW_ALL], weights=weights)[0]
-            s[t] = om
+                om[op.name] = rng.choices(['ALLOW_ALL', 'ALLOW_OWNER', 'DISALLOW_ALL'], weights=weights)[0]
+            s[t.name] = om
         return s
-    P['pa'] = {'preset': sec((4, 5, 1)), 'groups': {'G1': sec((6, 3, 1)), 'G2': sec((3, 5, 2))}}
-    P['pb'] = {'groups': {'G1': sec((5, 4, 1)), 'G2': sec((3, 4, 3))}}
-    P['pc'] = {'preset': sec((5, 4, 1))}
-    P['pd'] = {'preset': sec((6, 3, 1)), 'groups': {'G2': sec((1, 4, 5), 0.3, 0.3)}}
+    doc = {}
+    doc['pa'] = {'preset': sec((4, 5, 1)), 'groups': {'G1': sec((6, 3, 1)), 'G2': sec((3, 5, 2))}}
+    doc['pb'] = {'groups': {'G1': sec((5, 4, 1)), 'G2': sec((3, 4, 3))}}
+    doc['pc'] = sec((5, 4, 1)) if rng.random() < 0.5 else {'preset': sec((5, 4, 1))}      # legacy layout: the body is the preset
+    doc['pd'] = {'preset': sec((6, 3, 1)), 'groups': {'G2': sec((1, 4, 5), 0.3, 0.3)}}
     if rng.random() < 0.3:
-        P['pd']['groups'][''] = sec((1, 1, 8))
-    return P
+        doc['pd']['groups'][''] = sec((1, 1, 8))
+    return doc
+
+
+def doc_to_policies(doc):
+    """What a policy document MEANS (docs/source/server.rst), written independently of kmip.core.policy.parse_policy:
+    name -> {'preset': section, 'groups': {group: section}}; a body whose keys are object types is the preset."""
+    def sec(s):
+        return {OT[t]: {OP[op]: PL[p] for op, p in ops.items()} for t, ops in s.items()}
+    out = {}
+    for name, body in doc.items():
+        if not body:
+            continue
+        if set(body) <= {'preset', 'groups'}:
+            b = {}
+            if 'preset' in body:
+                b['preset'] = sec(body['preset'])
+            if 'groups' in body:
+                b['groups'] = {g: sec(x) for g, x in body['groups'].items()}
+            out[name] = b
+        else:
+            out[name] = {'preset': sec(body)}
+    return out
+
+
+_doc_counter = [0]
+
+
+def load_document(ctx, doc):
+    """-> (policies for the specification / the model, policies the ENGINE gets = built-ins + the file as loaded by
+    kmip.core.policy.read_policy_from_file)"""
+    _doc_counter[0] += 1
+    path = Path(ctx.work) / ('policy_%d.json' % _doc_counter[0])
+    path.write_text(json.dumps(doc, indent=1))
+    try:
+        loaded = core_policy.read_policy_from_file(str(path))
+    finally:
+        path.unlink()
+    P_engine = copy.deepcopy(core_policy.policies)
+    P_engine.update(loaded)
+    P_spec = copy.deepcopy(core_policy.policies)
+    P_spec.update(doc_to_policies(doc))
+    return P_spec, P_engine
 
 
 def policies_from_plain(plain):
@@ -380,7 +427,8 @@ def build_item(it, version):
                                attrs=kdrv.sym_attrs(E.CryptographicAlgorithm.AES, 128, MASK) + pol_attr(it.get('pol')),
                                otype=(OT.CERTIFICATE if it.get('prefail') else OT.SYMMETRIC_KEY))
     if k == 'locate':
-        return kdrv.locate([kdrv.attr(kdrv.AT.OBJECT_TYPE, OT[it['type']])] if it.get('type') else [])
+        return kdrv.locate([kdrv.attr(kdrv.AT.OBJECT_TYPE, OT[it['type']])] if it.get('type') else [],
+                           offset=it.get('offset'), maximum=it.get('maximum'))
     if k == 'get':
         wrap = None
         if it.get('wrap') is not None:
@@ -570,9 +618,9 @@ def oracle_request(ctx, eng, P, step, resp, rows0, dump0, dump1, notfound_tpl, r
 
 
 # ---------------------------------------------------------------------------- running a history
-def run_history(ctx, P, steps, want_case=True, count=False):
+def run_history(ctx, P, steps, want_case=True, count=False, P_engine=None):
     """Run `steps` on a fresh engine.  -> (coq case | None, violations [(sig, detail, what, step index)], observed log)"""
-    eng = kdrv.Engine(policies=copy.deepcopy(P), workdir=ctx.work)
+    eng = kdrv.Engine(policies=copy.deepcopy(P_engine if P_engine is not None else P), workdir=ctx.work)
     viol, hsteps, log = [], [], []
     try:
         ref = eng.request([kdrv.get(NEVER)])['items'][0]
@@ -615,9 +663,10 @@ def run_history(ctx, P, steps, want_case=True, count=False):
                     each_ok = [not (u in rows_run and unsuitable(u, rows_run[u])) for u in it.get('uids', [])]
                     c_items.append(c_request(it, ok, new, match, each_ok))
                     if r is not None:
-                        c_obs.append('{| ob_ok := %s; ob_reason := %s; ob_msg := %s; ob_ids := %s |}' % (
+                        c_obs.append('{| ob_ok := %s; ob_reason := %s; ob_msg := %s; ob_ids := %s; ob_partial := %s |}' % (
                             cp.boolean(ok), cp.string(r['reason'] or ''), cp.string(r['message'] or ''),
-                            cp.lst(item_ids(it, r) if ok else [], cp.string)))
+                            cp.lst(item_ids(it, r) if ok else [], cp.string),
+                            cp.boolean(it.get('offset') is not None or it.get('maximum') is not None)))
                         if count:
                             cls = ('success' if ok else 'denied' if (r['reason'] == 'PERMISSION_DENIED' and r['message'].startswith(notfound_tpl.split(NEVER)[0]))
                                    else 'not-found' if (r['reason'] == 'ITEM_NOT_FOUND' and r['message'].startswith(notfound_tpl.split(NEVER)[0]))
@@ -638,7 +687,7 @@ def run_history(ctx, P, steps, want_case=True, count=False):
 
 
 # ---------------------------------------------------------------------------- generating histories
-def gen_history_live(ctx, rng, P, n_steps):
+def gen_history_live(ctx, rng, P, n_steps, locate_bias=False):
     """Generate a history step by step against a scratch engine so that identifiers aim at live objects."""
     eng = kdrv.Engine(policies=copy.deepcopy(P), workdir=ctx.work)
     steps = []
@@ -670,7 +719,7 @@ def gen_history_live(ctx, rng, P, n_steps):
             version = (1, 2)
             items = []
             x = rng.random()
-            if si < 4 or x < 0.18:
+            if si < 4 or x < (0.35 if locate_bias else 0.18):
                 y = rng.random()
                 pol = rng.choice(POLICY_NAMES)
                 if y < 0.45:
@@ -681,9 +730,14 @@ def gen_history_live(ctx, rng, P, n_steps):
                     items.append({'k': 'create_key_pair', 'pol': pol})
                 if rng.random() < 0.35:
                     items.append({'k': rng.choice(ADDR_KINDS[:6]), 'uid': None})
-            elif x < 0.28:
-                items.append({'k': 'locate', 'type': rng.choice([None, None, 'SYMMETRIC_KEY', 'CERTIFICATE', 'PUBLIC_KEY'])})
-            elif x < 0.35:
+            elif x < (0.55 if locate_bias else 0.28):
+                it = {'k': 'locate', 'type': rng.choice([None, None, 'SYMMETRIC_KEY', 'CERTIFICATE', 'PUBLIC_KEY'])}
+                if rng.random() < 0.3:
+                    it['offset'] = rng.choice([0, 1, 2])
+                if rng.random() < 0.3:
+                    it['maximum'] = rng.choice([1, 2, 5])
+                items.append(it)
+            elif x < (0.58 if locate_bias else 0.35):
                 it = {'k': 'derive', 'uids': [pick_uid() or NEVER for _ in range(rng.choice([1, 1, 2]))], 'pol': rng.choice(POLICY_NAMES)}
                 if rng.random() < 0.1:
                     it['prefail'] = True
@@ -752,17 +806,39 @@ def corpus():
     return [h1]
 
 
+def locate_corpus():
+    """Two/three identities creating objects of the same (policy, type) in alternating order, then Locate by each:
+    plain, filtered, with offset/maximum.  (An owner-blind or order-dependent listing shows up here.)"""
+    def st(user, groups, items):
+        return {'user': user, 'groups': groups, 'version': [1, 2], 'cont': False, 'items': items}
+    hs = []
+    for order in (('bob', 'alice', 'bob', 'carol', 'alice'), ('alice', 'bob', 'alice', 'bob', 'carol')):
+        h = []
+        for pol in (None, 'pa', 'pc', 'pb'):
+            for t in ('SYMMETRIC_KEY', 'CERTIFICATE', 'SECRET_DATA'):
+                for u in order[:3] if pol in ('pc', 'pb') else order:
+                    h.append(st(u, None, [{'k': 'register', 'type': t, 'pol': pol}]))
+        for user, groups in (('alice', None), ('bob', None), ('carol', None), ('bob', ['G1']), ('alice', ['G2', 'G1']), ('dave', None), ('bob', [])):
+            h.append(st(user, groups, [{'k': 'locate', 'type': None}]))
+            h.append(st(user, groups, [{'k': 'locate', 'type': 'SYMMETRIC_KEY'}]))
+            h.append(st(user, groups, [{'k': 'locate', 'type': 'CERTIFICATE', 'offset': 1}]))
+            h.append(st(user, groups, [{'k': 'locate', 'type': None, 'offset': 2, 'maximum': 6}]))
+            h.append(st(user, groups, [{'k': 'locate', 'type': None, 'maximum': 3}]))
+        hs.append(h)
+    return hs
+
+
 HEADER_B = ('From Coq Require Import String ZArith List Bool.\n'
             'From PK Require Import Policy.Policy Policy.AccessTypes Policy.Access Policy.AccessCases.\n'
             'Import ListNotations.\nOpen Scope Z_scope.\nOpen Scope string_scope.\n')
 
 
-def shrink(ctx, P, steps, sig, upto, budget=40):
+def shrink(ctx, P, steps, sig, upto, budget=40, P_engine=None):
     """Greedy removal of steps while a violation with the same signature still reproduces."""
     cur = steps[:upto + 1]
     def fails(cand):
         try:
-            _, v, _ = run_history(ctx, P, cand, want_case=False)
+            _, v, _ = run_history(ctx, P, cand, want_case=False, P_engine=P_engine)
         except Exception:
             return False
         return any(x[0] == sig for x in v)
@@ -776,53 +852,142 @@ def shrink(ctx, P, steps, sig, upto, budget=40):
     return cur
 
 
+def report_violations(ctx, viol, P, P_engine, doc, steps, state):
+    for sig, detail, what, si in viol:
+        key = json.dumps(sig, sort_keys=True, default=str)
+        if key in state['reported']:
+            continue
+        state['reported'].add(key)
+        known = any(f.get('status') == 'known' and all(k in sig and sig[k] == v for k, v in f['signature'].items()) for f in ctx.findings)
+        if known or state['shrunk'] >= 2:
+            wsteps = steps[:si + 1]
+        else:
+            state['shrunk'] += 1
+            wsteps = shrink(ctx, P, steps, sig, si, budget=30, P_engine=P_engine)
+        ctx.violation(sig, {'kind': 'history', 'policies': plain_policies(P), 'policy_document': doc, 'steps': wsteps, 'detail': detail,
+                            'how_to_replay': 'bin/check C03 --replay <this file>: fresh engine whose policies are the built-ins plus the policy '
+                                             'document loaded with kmip.core.policy.read_policy_from_file, then the steps in order as the given identities'},
+                      what)
+
+
 def histories(ctx):
     quick = ctx.tier == 'quick'
-    n_hist, n_steps = (14, 36) if quick else (70, 60)
+    n_hist, n_steps = (12, 36) if quick else (70, 60)
     rng = ctx.subrng('histories')
     cases, metas = [], []
     plan = []
-    Pc = random_policies(ctx.subrng('corpus-policies'))
-    for h in corpus():
-        plan.append((Pc, h, 'corpus'))
+    docc = random_policy_document(ctx.subrng('corpus-policies'))
+    Pc, Pc_engine = load_document(ctx, docc)
+    for k, h in enumerate(corpus()):
+        plan.append((Pc, Pc_engine, docc, h, 'corpus-%d' % k))
+    for k, h in enumerate(locate_corpus()):
+        plan.append((Pc, Pc_engine, docc, h, 'locate-corpus-%d' % k))
     for k in range(n_hist):
-        P = random_policies(rng)
-        plan.append((P, gen_history_live(ctx, rng, P, n_steps), 'seeded-%d' % k))
-    reported = set()
-    shrunk = 0
-    for P, steps, label in plan:
-        case, viol, log = run_history(ctx, P, steps, want_case=True, count=True)
+        doc = random_policy_document(rng)
+        P, P_engine = load_document(ctx, doc)
+        plan.append((P, P_engine, doc, gen_history_live(ctx, rng, P_engine, n_steps, locate_bias=(k % 4 == 3)), 'seeded-%d' % k))
+    state = {'reported': set(), 'shrunk': 0}
+    for P, P_engine, doc, steps, label in plan:
+        case, viol, log = run_history(ctx, P, steps, want_case=True, count=True, P_engine=P_engine)
         cases.append(case)
-        metas.append({'history': label, 'policies': plain_policies(P), 'steps': steps, 'observed': log})
+        metas.append({'history': label, 'policy_document': doc, 'steps': steps, 'observed': log})
         ctx.count('history.requests', len(steps))
-        for sig, detail, what, si in viol:
-            key = json.dumps(sig, sort_keys=True, default=str)
-            if key in reported:
-                continue
-            reported.add(key)
-            known = any(f.get('status') == 'known' and all(k in sig and sig[k] == v for k, v in f['signature'].items()) for f in ctx.findings)
-            if known or shrunk >= 2:
-                wsteps = steps[:si + 1]
-            else:
-                shrunk += 1
-                wsteps = shrink(ctx, P, steps, sig, si, budget=30)
-            ctx.violation(sig, {'kind': 'history', 'policies': plain_policies(P), 'steps': wsteps, 'detail': detail,
-                                'how_to_replay': 'bin/check C03 --replay <this file>: fresh engine with these policies, the steps in order as the given identities'},
-                          what)
+        report_violations(ctx, viol, P, P_engine, doc, steps, state)
     bad = ctx.run_cases('histories', HEADER_B, cases, 'check_history', shard=4,
-                        what='process_request/run of Policy/Access.v vs KmipEngine.process_request on whole histories: outcome class, reason, message, Locate ids, (uid, type, owner, policy) rows after every request')
+                        what='process_request/run of Policy/Access.v (policies = the policy DOCUMENT) vs KmipEngine.process_request (policies = the '
+                             'document loaded by read_policy_from_file) on whole histories: outcome class, reason, message, Locate ids, '
+                             '(uid, type, owner, policy) rows after every request')
     for i in bad[:5]:
         first = ctx.model_output(HEADER_B, 'first_bad (fst (%s)) empty_store (snd (%s)) 0' % (cases[i], cases[i]))
-        ctx.disagreement('histories', {'history': metas[i]['history'], 'policies': metas[i]['policies'], 'steps': metas[i]['steps'],
+        ctx.disagreement('histories', {'history': metas[i]['history'], 'policy_document': metas[i]['policy_document'], 'steps': metas[i]['steps'],
                                        'observed': metas[i]['observed']}, model_says=first[:1500])
     if metas:
         ctx.sample({'history': metas[-1]['history'], 'first_steps': metas[-1]['steps'][:6], 'observed': metas[-1]['observed'][:6]})
+    # ---- finder: a tie or an obligation is broken and no concrete failing input yet -> search with the direct oracle
+    if ctx.broken and not ctx.violations:
+        ctx.log('broken: %s - searching for a concrete failing input with the direct oracle' % ', '.join(sorted({b['name'] for b in ctx.broken})))
+        frng = ctx.subrng('finder')
+        # first the disagreeing histories again (oracle already ran on them), then fresh ones biased to listings and creators
+        for k in range(30 if quick else 80):
+            doc = random_policy_document(frng)
+            P, P_engine = load_document(ctx, doc)
+            steps = gen_history_live(ctx, frng, P_engine, 50, locate_bias=(k % 2 == 0))
+            _, viol, _ = run_history(ctx, P, steps, want_case=False, P_engine=P_engine)
+            ctx.count('finder.histories')
+            report_violations(ctx, viol, P, P_engine, doc, steps, state)
+            if ctx.violations:
+                break
     return bad, metas
+
+
+# ---------------------------------------------------------------------------- K(a'): policy documents through the file loader
+def document_cases(ctx, eng):
+    """The decision on policies that went through kmip.core.policy.read_policy_from_file, against the model and
+    granted_spec evaluated on the DOCUMENT."""
+    import re
+    rng = ctx.subrng('documents')
+    real = eng.engine
+    idents = [('alice', None), ('bob', None), ('bob', ['G1']), ('bob', ['G2', 'G1']), ('alice', ['G2']), ('bob', ['GX'])]
+    cases, meta = [], []
+    fixed = {'two-types': {'preset': {'CERTIFICATE': {'LOCATE': 'ALLOW_ALL', 'GET': 'ALLOW_ALL', 'GET_ATTRIBUTES': 'ALLOW_ALL'},
+                                       'SYMMETRIC_KEY': {'GET': 'ALLOW_OWNER', 'DESTROY': 'ALLOW_OWNER'}}},
+             'legacy': {'SYMMETRIC_KEY': {'GET': 'ALLOW_ALL'}, 'CERTIFICATE': {'DESTROY': 'DISALLOW_ALL', 'LOCATE': 'ALLOW_OWNER'}},
+             'groups-two-types': {'groups': {'G1': {'SECRET_DATA': {'GET': 'ALLOW_ALL'}, 'SYMMETRIC_KEY': {'LOCATE': 'ALLOW_ALL'}},
+                                             'G2': {'SYMMETRIC_KEY': {'GET': 'ALLOW_OWNER'}}}},
+             'empty-body': {}, 'empty-preset': {'preset': {}}, 'empty-groups': {'preset': {'SYMMETRIC_KEY': {'GET': 'ALLOW_ALL'}}, 'groups': {}}}
+    docs = [fixed] + [random_policy_document(rng) for _ in range(6 if ctx.tier == 'quick' else 30)]
+    for di, doc in enumerate(docs):
+        P_spec, P_engine = load_document(ctx, doc)
+        real._operation_policies = P_engine
+        for pn in doc:
+            cells, cmeta = [], []
+            for ot in TYPES:
+                for op in POLICY_OPS:
+                    for user, groups in idents:
+                        obs = bool(real._is_allowed_by_operation_policy(pn, (user, groups), 'alice', ot, op))
+                        cells.append('(%s, %s, %s, %s, %s)' % (c_identity(user, groups), c_user('alice'), cp.z(ot.value), cp.z(op.value), cp.boolean(obs)))
+                        cmeta.append({'document': di, 'policy': pn, 'user': user, 'owner': 'alice', 'groups': groups, 'ot': ot.name, 'op': op.name, 'impl': obs})
+                        ctx.case_seen(('doc', di, pn, ot.name, op.name, user, tuple(groups) if groups else groups), nontrivial=True)
+                        ctx.count('document.%s' % ('allowed' if obs else 'denied'))
+                        if obs and not granted_spec(P_spec, pn, user, groups, 'alice', ot, op):
+                            ctx.violation({'class': 'policy-file', 'site': 'read_policy_from_file'},
+                                          {'policy_document': doc, 'policy_name': pn, 'identity': [user, groups], 'owner': 'alice',
+                                           'object_type': ot.name, 'operation': op.name, 'allowed': True, 'granted_by_document': False,
+                                           'how': 'write the document to a file, kmip.core.policy.read_policy_from_file(path), give the result to '
+                                                  'KmipEngine(policies=...), call _is_allowed_by_operation_policy(policy_name, identity, owner, object_type, operation)'},
+                                          'policy file: the engine allows %s on %s for %r under policy %s although the document does not grant it' % (
+                                              op.name, ot.name, (user, groups), pn))
+            cases.append('(%s, %s, [%s])' % (c_policies(P_spec), cp.string(pn), '; '.join(cells)))
+            meta.append((cmeta, doc))
+    real._operation_policies = eng.policies
+    bad = ctx.run_cases('documents', HEADER_A, cases, 'chk_dec', shard=6,
+                        what='allowed_by_policy on the policy DOCUMENT vs the real decision on read_policy_from_file(document): '
+                             'every (object type, operation) x 6 identities for every policy of %d documents (%d cells)' % (len(docs), sum(len(m[0]) for m in meta)))
+    for i in bad[:4]:
+        out = ctx.model_output(HEADER_A, 'bad_cells (%s)' % cases[i])
+        m = re.search(r'=\s*(\[[^\]]*\]|nil)', out)
+        idx = [int(x) for x in re.findall(r'\d+', m.group(1))] if m and m.group(1) != 'nil' else []
+        for j in idx[:4]:
+            ctx.disagreement('documents', dict(meta[i][0][j], policy_document=meta[i][1]), model_says=not meta[i][0][j]['impl'], impl_says=meta[i][0][j]['impl'])
+        if not idx:
+            ctx.disagreement('documents', {'policy_document': meta[i][1], 'note': out[:300]})
 
 
 def replay(ctx, data):
     load_local_findings(ctx)
     w = data.get('input') or {}
+    if w.get('kind') != 'history' and w.get('policy_document') is not None:
+        P_spec, P_engine = load_document(ctx, w['policy_document'])
+        eng = kdrv.Engine(policies=P_engine, workdir=ctx.work)
+        try:
+            user, groups = w['identity']
+            got = eng.engine._is_allowed_by_operation_policy(w['policy_name'], (user, groups), w['owner'], OT[w['object_type']], OP[w['operation']])
+            want = granted_spec(P_spec, w['policy_name'], user, groups, w['owner'], OT[w['object_type']], OP[w['operation']])
+            print('engine (policies loaded from the file) allows: %r   granted by the document: %r' % (got, want))
+            print('REPRODUCED' if (got and not want) else 'not reproduced')
+            return 1 if (got and not want) else 0
+        finally:
+            eng.close()
     if w.get('kind') != 'history':
         print('replay: the witness is a direct call, see its "how" field:', json.dumps(w, default=str)[:800])
         eng = kdrv.Engine(workdir=ctx.work)
@@ -836,8 +1001,11 @@ def replay(ctx, data):
             return 1 if (got and not want) else 0
         finally:
             eng.close()
-    P = policies_from_plain(w['policies'])
-    _, viol, log = run_history(ctx, P, w['steps'], want_case=False)
+    if w.get('policy_document') is not None:
+        P, P_engine = load_document(ctx, w['policy_document'])
+    else:
+        P, P_engine = policies_from_plain(w['policies']), None
+    _, viol, log = run_history(ctx, P, w['steps'], want_case=False, P_engine=P_engine)
     for sig, detail, what, si in viol:
         print('step %d: %s' % (si, what))
         print('   ', json.dumps(detail, default=str)[:600])
@@ -855,6 +1023,21 @@ def load_local_findings(ctx):
                 ctx.findings.append(f)
 
 
+def use_fallback_tables(ctx):
+    """The translation failed (the tie is already recorded as broken).  The model still needs its tables so that the
+    correspondence and the direct oracle can look for a concrete failing input: keep the last good generated files,
+    or, in a fresh checkout, install the copies kept in coq/theories/Policy/fallback/."""
+    gen = VERIF / 'coq' / 'gen'
+    for fb in sorted((VERIF / 'coq' / 'theories' / 'Policy' / 'fallback').glob('*.v.txt')):
+        dst = gen / fb.name[:-4]
+        if not dst.exists():
+            dst.write_text(fb.read_text())
+            ctx.log('translation failed: installed fallback table', dst.name)
+        else:
+            ctx.log('translation failed: keeping the last good', dst.name)
+    ctx.notes.append('translation failed; the model ran on the last good / fallback tables')
+
+
 def run(ctx):
     load_local_findings(ctx)
     ctx.cov['rule'] = ('(a) every cell of the abstract decision space: 9 preset shapes x 39 groups shapes (+ missing policy) x '
@@ -863,12 +1046,14 @@ def run(ctx):
                        'seeded engine histories over 3 users x 9 group lists, random custom policies (preset and/or groups, missing type/operation entries), '
                        '7 object types, 19 operations incl. wrapping key, derivation bases, ID placeholder, batches. A case is distinct by '
                        '(policy shape, requester, groups) resp. (operation, placeholder?, outcome class, groups, policy name, requester is owner).')
-    ctx.regen(only=['policies'])
+    if not ctx.regen(only=['policies']):
+        use_fallback_tables(ctx)
     ctx.prove('props/C03.v', extra_targets=['theories/Policy/AccessCases.v'])
     eng = kdrv.Engine(workdir=ctx.work)
     try:
         n = decision_cases(ctx, eng)
         ctx.count('decision.policy_shapes', n)
+        document_cases(ctx, eng)
     finally:
         eng.close()
     histories(ctx)
